@@ -38,7 +38,8 @@ def attrsOf (t : Tok) : Option Attrs := do
 
 def encInters (l : List Inter) : String :=
   let sorted := l.mergeSort (fun x y => strLe x.sect y.sect)
-  encList (sorted.map fun it => encList [encStr it.sect, encList (it.atoms.map encStr), encList (it.params.map encStr)])
+  encList (sorted.map fun it => encList [encStr it.sect, encList (it.atoms.map encStr), encList (it.params.map encStr),
+    encAttrs it.imeta])
 
 def encIntersM (l : List Inter) : String :=
   let sorted := l.mergeSort (fun x y => strLe x.sect y.sect)
